@@ -74,9 +74,9 @@ def strip_cv(q):
             if q.startswith(kw):
                 q = q[len(kw):].strip()
                 changed = True
-        for kw in (' const', ' volatile'):
+        for kw in (' const', ' volatile', '*const', '&const', '*volatile'):
             if q.endswith(kw):
-                q = q[:-len(kw)].strip()
+                q = q[:-len(kw.lstrip('*&'))].strip()
                 changed = True
     return q
 
